@@ -170,6 +170,16 @@ pub struct PvwWrite {
     pub len: u16,
     /// write_contents(ExactSizeIterator) instead of write_slice / write_cell_slice
     pub iter: bool,
+    /// only with `iter`: the iterator is slow, it applies `slow_pt` before every `slow_every`-th item
+    /// (0 = plain iterator). The writer has then reserved its range and is storing into the buffer
+    /// while other writers run (and possibly force a reallocation).
+    #[serde(default)]
+    pub slow_every: u8,
+    #[serde(default = "pt_none")]
+    pub slow_pt: Pt,
+}
+fn pt_none() -> Pt {
+    Pt::N
 }
 #[derive(Clone, Serialize, Deserialize)]
 pub struct PvwSc {
@@ -182,6 +192,11 @@ pub struct PvwSc {
     /// read the own completed write back through unsafe_read_access (get_row_unchecked pattern)
     pub verify_own: bool,
     pub gap: Pt,
+    /// growth race: every writer but writer 0 starts only after writer 0's first (slow) write_contents
+    /// iterator has produced its first item, i.e. while writer 0 is in the middle of storing its range;
+    /// the generator then makes writer 1's first range exceed the capacity by a factor >= 4
+    #[serde(default)]
+    pub gate: bool,
 }
 
 #[derive(Clone, Serialize, Deserialize)]
@@ -501,18 +516,54 @@ fn dec_cvec(src: &mut Src) -> (Scenario, u32) {
     }
 }
 
+fn dec_pvw_write(src: &mut Src, slow_left: &mut u32) -> PvwWrite {
+    let len = src.below(49) as u16;
+    let iter = src.chance(1, 3);
+    let mut w = PvwWrite { len, iter, slow_every: 0, slow_pt: Pt::N };
+    if iter && len >= 2 && *slow_left > 0 && src.chance(1, 3) {
+        *slow_left -= 1;
+        w.slow_every = src.range(1, 4) as u8;
+        w.slow_pt = dec_rep_pt(src, len as usize / w.slow_every as usize + 1);
+    }
+    w
+}
+
 fn dec_pvw(src: &mut Src) -> PvwSc {
-    let prefix = src.below(65) as u16;
-    let extra_cap = *src.pick(&[0u16, 0, 4, 64, 2048]);
+    let gate = src.chance(1, 3);
     let cell = src.bool();
+    // at most a few slow writes per scenario (bounds the time a scenario can sleep)
+    let mut slow_left = 4u32;
+    if gate {
+        // small buffer; writer 0 is in the middle of a slow write_contents when writer 1 asks for >= 4x the capacity
+        let prefix = src.below(17) as u16;
+        let extra_cap = *src.pick(&[16u16, 32, 64]);
+        let nw = 2 + src.below(5);
+        let mut writers: Vec<Vec<PvwWrite>> = vec![];
+        for t in 0..nw {
+            let k = 1 + src.below(8);
+            let mut ws: Vec<PvwWrite> = (0..k).map(|_| dec_pvw_write(src, &mut slow_left)).collect();
+            if t == 0 {
+                let len = src.range(4, 40) as u16;
+                let every = src.range(1, 4) as u8;
+                ws[0] = PvwWrite { len, iter: true, slow_every: every, slow_pt: dec_rep_pt(src, len as usize / every as usize + 1) };
+            } else if t == 1 {
+                ws[0] = PvwWrite { len: 4 * (prefix + extra_cap) + src.below(64) as u16, iter: src.bool(), slow_every: 0, slow_pt: Pt::N };
+            }
+            writers.push(ws);
+        }
+        let readers = if prefix > 0 { src.below(3) as u8 } else { 0 };
+        return PvwSc { prefix, extra_cap, cell, writers, readers, verify_own: src.bool(), gap: dec_rep_pt(src, 10), gate };
+    }
+    let prefix = src.below(65) as u16;
+    let extra_cap = *src.pick(&[0u16, 0, 4, 16, 64, 2048]);
     let nw = 1 + src.below(8);
     let mut writers = vec![];
     for _ in 0..nw {
         let k = 1 + src.below(30);
-        writers.push((0..k).map(|_| PvwWrite { len: src.below(49) as u16, iter: src.chance(1, 3) }).collect());
+        writers.push((0..k).map(|_| dec_pvw_write(src, &mut slow_left)).collect());
     }
     let readers = if prefix > 0 { src.below(4) as u8 } else { 0 };
-    PvwSc { prefix, extra_cap, cell, writers, readers, verify_own: src.bool(), gap: dec_rep_pt(src, 30) }
+    PvwSc { prefix, extra_cap, cell, writers, readers, verify_own: src.bool(), gap: dec_rep_pt(src, 30), gate }
 }
 
 fn dec_notify(src: &mut Src) -> Scenario {
@@ -697,6 +748,16 @@ fn classify(sc: &Scenario, out: &mut Outcome) {
             }
             if s.readers > 0 {
                 out.class("pvw:prefix-readers");
+            }
+            if s.writers.iter().flatten().any(|w| w.iter && w.slow_every > 0) {
+                out.class("pvw:slow-iterator-write_contents");
+            }
+            if s.gate && s.writers.len() >= 2 {
+                let cap = s.prefix as usize + s.extra_cap as usize;
+                let big = s.writers[1].first().map(|w| w.len as usize).unwrap_or(0);
+                if big >= 4 * cap.max(1) {
+                    out.class("pvw:growth>=4x-while-slow-writer-is-storing");
+                }
             }
             if total > s.extra_cap as usize && s.writers.len() + s.readers as usize >= 2 {
                 out.class("pvw:reallocation-under-concurrent-access");
@@ -1540,8 +1601,45 @@ fn exec_cvec_seq(sc: &CvecSeqSc, reps: u32, st: &mut Stats) {
 trait PvwElem: Sized + Send {
     fn mk(v: u64) -> Self;
     fn val(&self) -> u64;
-    fn write(w: &ParallelVecWriter<Self>, items: Vec<u64>, iter: bool) -> usize;
+    /// the non-iterator path: write_slice (u64) / write_cell_slice (Cell<u64>)
+    fn write_all(w: &ParallelVecWriter<Self>, items: Vec<u64>) -> usize;
 }
+
+/// ExactSizeIterator handed to write_contents: optionally slow (perturbation before every k-th item) and
+/// optionally raising a flag once its first item has been taken (the destination is then already chosen)
+struct PvwIter<'a, E> {
+    thread: usize,
+    write: usize,
+    next: usize,
+    len: usize,
+    every: usize,
+    pt: Pt,
+    started: Option<&'a AtomicBool>,
+    _e: std::marker::PhantomData<E>,
+}
+impl<E: PvwElem> Iterator for PvwIter<'_, E> {
+    type Item = E;
+    fn next(&mut self) -> Option<E> {
+        if self.next >= self.len {
+            return None;
+        }
+        if self.next >= 1 {
+            if let Some(f) = self.started.take() {
+                f.store(true, Ordering::SeqCst);
+            }
+            if self.every > 0 && self.next % self.every == 0 {
+                perturb(self.pt);
+            }
+        }
+        let v = pvw_val(self.thread, self.write, self.next);
+        self.next += 1;
+        Some(E::mk(v))
+    }
+    fn size_hint(&self) -> (usize, Option<usize>) {
+        (self.len - self.next, Some(self.len - self.next))
+    }
+}
+impl<E: PvwElem> ExactSizeIterator for PvwIter<'_, E> {}
 impl PvwElem for u64 {
     fn mk(v: u64) -> u64 {
         v
@@ -1549,8 +1647,8 @@ impl PvwElem for u64 {
     fn val(&self) -> u64 {
         *self
     }
-    fn write(w: &ParallelVecWriter<u64>, items: Vec<u64>, iter: bool) -> usize {
-        if iter { w.write_contents(items.into_iter()) } else { w.write_slice(&items) }
+    fn write_all(w: &ParallelVecWriter<u64>, items: Vec<u64>) -> usize {
+        w.write_slice(&items)
     }
 }
 impl PvwElem for Cell<u64> {
@@ -1560,9 +1658,9 @@ impl PvwElem for Cell<u64> {
     fn val(&self) -> u64 {
         self.get()
     }
-    fn write(w: &ParallelVecWriter<Cell<u64>>, items: Vec<u64>, iter: bool) -> usize {
+    fn write_all(w: &ParallelVecWriter<Cell<u64>>, items: Vec<u64>) -> usize {
         let cells: Vec<Cell<u64>> = items.into_iter().map(Cell::new).collect();
-        if iter { w.write_contents(cells.into_iter()) } else { write_cell_slice(w, &cells) }
+        write_cell_slice(w, &cells)
     }
 }
 
@@ -1581,15 +1679,44 @@ fn exec_pvw<E: PvwElem>(sc: &PvwSc, reps: u32, st: &mut Stats) {
             init.push(E::mk(PREFIX_TAG | i as u64));
         }
         let w: ParallelVecWriter<E> = ParallelVecWriter::new(init);
+        let a_started = AtomicBool::new(false);
         let done = AtomicUsize::new(0);
         let starts: Vec<Mutex<Vec<usize>>> = (0..nw).map(|_| Mutex::new(vec![])).collect();
         on_threads("pvw", nw + sc.readers as usize, |ti| {
             if ti < nw {
                 let mut mine = vec![];
+                if sc.gate {
+                    if ti == 0 {
+                        // the gate opens from inside writer 0's first iterator; if that write cannot open it
+                        // (hand-edited / shrunk input) open it right away so nobody waits forever
+                        let opens = sc.writers[0].first().map(|f| f.iter && f.len >= 2).unwrap_or(false);
+                        if !opens {
+                            a_started.store(true, Ordering::SeqCst);
+                        }
+                    } else {
+                        while !a_started.load(Ordering::SeqCst) {
+                            std::hint::spin_loop();
+                            std::thread::yield_now();
+                        }
+                    }
+                }
                 for (wi, wr) in sc.writers[ti].iter().enumerate() {
                     let len = wr.len as usize;
-                    let items: Vec<u64> = (0..len).map(|o| pvw_val(ti, wi, o)).collect();
-                    let start = E::write(&w, items, wr.iter);
+                    let start = if wr.iter {
+                        let it: PvwIter<'_, E> = PvwIter {
+                            thread: ti,
+                            write: wi,
+                            next: 0,
+                            len,
+                            every: wr.slow_every as usize,
+                            pt: wr.slow_pt,
+                            started: (sc.gate && ti == 0 && wi == 0).then_some(&a_started),
+                            _e: std::marker::PhantomData,
+                        };
+                        w.write_contents(it)
+                    } else {
+                        E::write_all(&w, (0..len).map(|o| pvw_val(ti, wi, o)).collect())
+                    };
                     if start < prefix {
                         fail("pvw-write-overlaps-prefix", format!("repetition {r}: write #{wi} of writer {ti} was placed at {start}, inside the initial prefix of {prefix}"));
                     }
